@@ -5,7 +5,9 @@ import math
 from mc.oracle import cielab
 
 
-def delta_e_lab(lab1, lab2, kL=1.0, kC=1.0, kH=1.0):
+def delta_e_lab(lab1, lab2, kL=1.0, kC=1.0, kH=1.0, other_branch=False):
+    """other_branch=True evaluates the formula on the other side of its discontinuity at a hue difference of exactly 180
+    degrees (both the sign of dh' and the mean-hue branch flip there) - see hue_gap()."""
     L1, a1, b1 = lab1
     L2, a2, b2 = lab2
     C1 = math.hypot(a1, b1)
@@ -34,6 +36,8 @@ def delta_e_lab(lab1, lab2, kL=1.0, kC=1.0, kH=1.0):
             dhp = d - 360.0
         else:
             dhp = d + 360.0
+        if other_branch:
+            dhp = dhp - 360.0 if dhp > 0 else dhp + 360.0   # the equivalent angle on the other side of +-180
     dHp = 2.0 * math.sqrt(Cp1 * Cp2) * math.sin(math.radians(dhp / 2.0))
     Lbp = (L1 + L2) / 2.0
     Cbp = (Cp1 + Cp2) / 2.0
@@ -41,7 +45,7 @@ def delta_e_lab(lab1, lab2, kL=1.0, kC=1.0, kH=1.0):
         hbp = hp1 + hp2
     else:
         s = hp1 + hp2
-        if abs(hp1 - hp2) <= 180.0:
+        if (abs(hp1 - hp2) <= 180.0) != other_branch:
             hbp = s / 2.0
         elif s < 360.0:
             hbp = (s + 360.0) / 2.0
@@ -61,3 +65,25 @@ def delta_e_lab(lab1, lab2, kL=1.0, kC=1.0, kH=1.0):
 
 def delta_e(rgb1, rgb2):
     return delta_e_lab(cielab.rgb_to_lab(rgb1), cielab.rgb_to_lab(rgb2))
+
+
+def hue_gap(lab1, lab2):
+    """(| |h1' - h2'| - 180 | in degrees, smaller of the two C') - how close a pair is to the 180-degree discontinuity."""
+    L1, a1, b1 = lab1
+    L2, a2, b2 = lab2
+    Cb = (math.hypot(a1, b1) + math.hypot(a2, b2)) / 2.0
+    G = 0.5 * (1.0 - math.sqrt(Cb ** 7 / (Cb ** 7 + 25.0 ** 7)))
+    ap1, ap2 = (1.0 + G) * a1, (1.0 + G) * a2
+    h1 = math.degrees(math.atan2(b1, ap1)) % 360.0
+    h2 = math.degrees(math.atan2(b2, ap2)) % 360.0
+    return abs(abs(h1 - h2) - 180.0), min(math.hypot(ap1, b1), math.hypot(ap2, b2))
+
+
+def at_discontinuity(lab1, lab2, lab_tol=0.05):
+    """True when a change of the Lab coordinates within lab_tol (the agreement the property itself asks of Lab) can move the
+    pair across the 180-degree discontinuity: then both branch values are CIE-conformant answers."""
+    gap, cmin = hue_gap(lab1, lab2)
+    if cmin <= 0:
+        return False
+    reach = 2.0 * math.degrees(math.atan2(lab_tol * math.sqrt(2.0), cmin))
+    return gap <= reach
